@@ -25,7 +25,16 @@ func decode(args string, stdin []byte) (o map[string]interface{}) {
 			o["panic"] = fmt.Sprint(r)
 		}
 	}()
-	vlans, results, err := ipam.Allocate("", &skel.CmdArgs{Args: args, StdinData: stdin})
+	// as the galaxy plugins do (galaxy-k8s-vlan, galaxy-underlay-veth, ...): the ipam type of the network configuration is the
+	// fallback for pods without ipinfos in their arguments
+	var nc struct {
+		IPAM struct {
+			Type string `json:"type"`
+		} `json:"ipam"`
+	}
+	_ = json.Unmarshal(stdin, &nc)
+	o["ipam_type"] = nc.IPAM.Type
+	vlans, results, err := ipam.Allocate(nc.IPAM.Type, &skel.CmdArgs{Args: args, StdinData: stdin})
 	if err != nil {
 		o["res"] = "err"
 		o["err"] = err.Error()
